@@ -81,6 +81,19 @@ func genC07(r *Rng) *Plan {
 				st.Follow = 3
 			}
 			p.Steps = append(p.Steps, st)
+			if r.Chance(1, 4) && st.Body == "" {
+				// the very same signed URL again a little later: fresh the first time, stale the second
+				age := r.Range(270, 299)
+				gap := r.Range(2, 60)
+				first := st
+				first.Sub, first.Arg = "good", -age
+				if first.Str == "" || !inRootDomains(resolveHost3986("http://x.invalid/", first.Str), cfg.RootDomains) {
+					first.Str = "https://app1." + RootDomain + "/oauth2/callback"
+				}
+				second := first
+				second.Dt, second.Arg = time.Duration(gap)*time.Second, -age-gap
+				p.Steps = append(p.Steps, first, second)
+			}
 		}
 	}
 	return p
@@ -109,7 +122,7 @@ func genC08(r *Rng) *Plan {
 			st.Method = r.Pick("GET", "POST", "PUT", "DELETE", "HEAD", "OPTIONS", "PATCH")
 		}
 		if r.Chance(1, 6) {
-			st.Dt = r.PickDur(cfg.TokenTTL-5*time.Second, cfg.TokenTTL+5*time.Second, cfg.AuthLifetime+5*time.Second)
+			st.Dt = r.PickDur(cfg.TokenTTL-5*time.Second, cfg.TokenTTL+5*time.Second, cfg.AuthLifetime+5*time.Second, cfg.TokenTTL+300*time.Millisecond, cfg.TokenTTL+900*time.Millisecond, cfg.TokenTTL-300*time.Millisecond)
 		}
 		p.Steps = append(p.Steps, st)
 	}
@@ -129,6 +142,20 @@ func genC09(r *Rng) *Plan {
 	users := []string{"alice@example.com", "bob@example.com", "carol@other.org", "mallory@evil.com"}
 	u := users[r.Intn(len(users))]
 	p.Steps = append(p.Steps, Step{Op: "login", B: "b1", User: u, Host: host, Target: "/"})
+	if r.Chance(1, 6) {
+		// two devices of one user at the authenticator, one grant revoked; their /sign_in requests overlap
+		p.Gen = "auth-sessions+twin"
+		p.Steps = append(p.Steps, Step{Op: "login", B: "t1", User: "alice@example.com", Host: host, Target: "/"})
+		p.Steps = append(p.Steps, Step{Op: "login", B: "t2", User: "alice@example.com", Host: host, Target: "/"})
+		p.Steps = append(p.Steps, Step{Op: "idp", Sub: "revoke-browser", B: "t2", Name: "auth"})
+		first, second := "t1", "t2"
+		if r.Chance(1, 3) {
+			first, second = "t2", "t1"
+		}
+		ru := "https://app1." + RootDomain + "/oauth2/callback"
+		p.Steps = append(p.Steps, Step{Op: "authreq", B: first, Endpoint: "sign_in", Sub: "good", Str: ru, Dt: 5 * time.Second, Name: "",
+			Twin: &Step{Op: "authreq", B: second, Endpoint: "sign_in", Sub: "good", Str: ru}})
+	}
 	n := r.Range(3, 14)
 	for i := 0; i < n; i++ {
 		switch r.Intn(10) {
